@@ -123,6 +123,11 @@ def render_forwarding(o, i, fl, placement):
         L += ['def inner(%s):' % absig.render_params(i), '    return locals()',
               'def w0(%s):' % absig.render_params(hp + list(o)), '    return ' + call_text('h', o, fl),
               'p1 = functools.partial(w0, inner)', "p1.note = 'kept'", 'w = functools.partial(p1, S)', '']
+    elif placement == 'auto_partial_nothing':
+        # a partial object that binds NOTHING (or only keywords) over a forwarding function: still looked through
+        L += ['def inner(%s):' % absig.render_params(i), '    return locals()',
+              'def w0(%s):' % absig.render_params(o), '    return ' + call_text('inner', o, fl),
+              'w = functools.partial(w0)', '']
     elif placement == 'auto_param_method':
         # the same through a BOUND METHOD: the partial binds the callee to the method's first parameter after self
         kind = 'po' if o and o[0]['k'] == 'po' else 'pok'
